@@ -89,17 +89,17 @@ Proof.
     { assert (Ha : In a (b :: l2)) by (apply H; left; reflexivity).
       assert (Hb : In b (a :: l1)) by (apply H; left; reflexivity).
       destruct Ha as [Ha|Ha]; [congruence|]. destruct Hb as [Hb|Hb]; [congruence|].
-      exfalso. apply (Asym a b); [eapply SS_In_lt; eassumption|eapply SS_In_lt; eassumption]. }
+      exfalso. apply (Asym a b); [exact (SS_In_lt R a l1 b S1 Hb)|exact (SS_In_lt R b l2 a S2 Ha)]. }
     subst b. f_equal. apply IH.
     + inversion S1; assumption.
     + inversion S2; assumption.
     + intros x. split; intros Hx.
       * assert (Hx' : In x (a :: l2)) by (apply H; right; assumption).
         destruct Hx' as [Hx'|Hx']; [|assumption]. subst x. exfalso.
-        apply (Irr a). eapply SS_In_lt; eassumption.
+        apply (Irr a). exact (SS_In_lt R a l1 a S1 Hx).
       * assert (Hx' : In x (a :: l1)) by (apply H; right; assumption).
         destruct Hx' as [Hx'|Hx']; [|assumption]. subst x. exfalso.
-        apply (Irr a). eapply SS_In_lt; eassumption.
+        apply (Irr a). exact (SS_In_lt R a l2 a S2 Hx).
 Qed.
 
 (* ---- insertion sort ---- *)
@@ -205,7 +205,7 @@ Proof.
   assert (L : length k1 = length k2).
   { pose proof (last_nul_sep k1 i1 H1) as A. pose proof (last_nul_sep k2 i2 H2) as B.
     rewrite E in A. congruence. }
-  destruct (app_eq_len _ _ _ _ L E) as [E1 E2]. inversion E2. split; assumption.
+  destruct (app_eq_len _ _ _ _ L E) as [E1 E2]. split; [exact E1|congruence].
 Qed.
 
 Lemma get_key_inj : forall n k1 i1 k2 i2,
